@@ -268,9 +268,13 @@ def gen_b(rng, tier):
     if cwd == "lnrun":
         symlinks["lnrun"] = "run"
     cwd_real = "run" if cwd == "lnrun" else cwd
-    entry = rng.choice(["args_cfg", "args_cfg", "path", "env", "defaults", "args_direct", "object"])
+    entry = rng.choice(["args_cfg", "args_cfg", "path", "path_obj", "env", "defaults", "args_direct", "object"])
     mainsp = _spell(rng, D0 + "/main.yaml", cwd_real)
     op = {"entry": entry, "main": mainsp}
+    if entry == "path_obj":
+        # Path("main.yaml", cwd=<its directory>) used from an unrelated process cwd
+        op["main"] = "main.yaml"
+        op["cwd"] = "$W/" + D0
     if entry in ("args_direct", "object"):
         # top-level references re-spelled relative to the cwd (command line / object spellings follow the cwd)
         direct, exp2 = {}, {}
@@ -599,6 +603,10 @@ def b_do(p, b):
         return p.parse_args(["--cfg", op["main"]])
     if e == "path":
         return p.parse_path(op["main"])
+    if e == "path_obj":
+        from jsonargparse import Path as _P
+
+        return p.parse_path(_P(op["main"], "fr", cwd=op["cwd"]))
     if e == "env":
         return p.parse_env({"APP_CFG": op["main"]})
     if e == "defaults":
